@@ -130,20 +130,35 @@ pub mod watchdog {
     static TICK: AtomicU64 = AtomicU64::new(0);
     static WHAT: Mutex<String> = Mutex::new(String::new());
 
+    /// CPU time (user + system) consumed by this process so far, in 1/100 s
+    fn cpu_centis() -> u64 {
+        let stat = std::fs::read_to_string("/proc/self/stat").unwrap_or_default();
+        // fields after the command name (which may contain spaces): state is field 3, utime 14, stime 15
+        let rest = stat.rsplit_once(')').map(|x| x.1).unwrap_or("");
+        let f: Vec<&str> = rest.split_whitespace().collect();
+        let g = |i: usize| f.get(i).and_then(|x| x.parse::<u64>().ok()).unwrap_or(0);
+        g(11) + g(12)
+    }
+
+    /// A unit of work counts as hung when the process burnt `limit_secs` of CPU time on it without a progress
+    /// tick (an endless loop), or - for a blocked process - when 15 x `limit_secs` of wall time passed.  Wall
+    /// time alone is not used: on a loaded machine a worker can be descheduled for a long time.
     pub fn start(limit_secs: u64) {
         std::thread::spawn(move || {
             let mut last = TICK.load(Ordering::Relaxed);
-            let mut idle = 0u64;
+            let mut cpu0 = cpu_centis();
+            let mut wall0 = std::time::Instant::now();
             loop {
                 std::thread::sleep(std::time::Duration::from_millis(500));
                 let cur = TICK.load(Ordering::Relaxed);
-                if cur == last {
-                    idle += 1;
-                } else {
-                    idle = 0;
+                if cur != last {
                     last = cur;
+                    cpu0 = cpu_centis();
+                    wall0 = std::time::Instant::now();
+                    continue;
                 }
-                if idle >= limit_secs * 2 {
+                let burnt = cpu_centis().saturating_sub(cpu0) / 100;
+                if burnt >= limit_secs || wall0.elapsed().as_secs() >= 15 * limit_secs {
                     let what = WHAT.lock().map(|w| w.clone()).unwrap_or_default();
                     let v: serde_json::Value = serde_json::from_str(&what).unwrap_or(serde_json::Value::String(what));
                     println!("{}", serde_json::json!({"hang": v, "behaviours": 0, "replays": 0, "checks": 0, "nontrivial": 0, "mismatch_count": 0, "mismatches": [], "samples": [], "extra": {}}));
